@@ -3,6 +3,9 @@
 PROPERTIES = {
     "C11": dict(
         modules=["rvltl", "temporal", "temporal_syntax"],
+        # "from the step the statement takes effect to the end of its scenario": the monitors must see the last state,
+        # i.e. DynamicScenario._step updates the requirement monitors before the time-limit stop (contract written for C12)
+        borrow=dict(modules=["simulation_order"], match=["DynamicScenario._step", "DynamicScenario._stop[order]"]),
         level="proof",
         claim="temporal requirements: (a) the dependency's monitors (rv_ltl, source on disk, checked not trusted) refine the four-valued finite-trace "
         "reference semantics sem4 (strong next / until) class by class over abstract children and traces of symbolic length -- truthiness exact, "
